@@ -264,6 +264,19 @@ pub fn generate(seed: u64, tier: &str, sink: &mut Sink) {
         }
         stalls.push(Stall { name: "redirect-chain-exceeds-T", scripts, timeout: Some(t), read_timeout: 5000, body: 0, bound: t + margin, must_fail: true, https_via_proxy: false, redirects: true });
     }
+    // an overall timeout so short that the deadline has passed before the connection's watchdog even starts
+    // (`timeout: Some(0)` stands for 1 µs): still bounded by T + margin, never by the read timeout
+    stalls.push(Stall { name: "tiny-T-stall-before-head", scripts: vec![vec![Srv::ReadRequest, Srv::Hold(3000)]], timeout: Some(0), read_timeout: 5000, body: 0, bound: margin, must_fail: true, https_via_proxy: false, redirects: false });
+    stalls.push(Stall { name: "tiny-T-drip-body", scripts: vec![vec![Srv::ReadRequest, Srv::Send(b"HTTP/1.1 200 OK\r\nContent-Length: 40\r\n\r\n".to_vec()), Srv::Drip(vec![b'x'; 40], 40), Srv::Hold(500)]], timeout: Some(0), read_timeout: 5000, body: 0, bound: margin, must_fail: true, https_via_proxy: false, redirects: false });
+    stalls.push(Stall { name: "tiny-T-stall-close-delimited", scripts: vec![vec![Srv::ReadRequest, Srv::Send(b"HTTP/1.1 200 OK\r\n\r\nstart".to_vec()), Srv::Hold(3000)]], timeout: Some(0), read_timeout: 5000, body: 0, bound: margin, must_fail: true, https_via_proxy: false, redirects: false });
+    // the deadline passes between two redirect hops: the second connection is made at (about) the deadline
+    for (name, ms) in [("deadline-between-hops-a", 288u64), ("deadline-between-hops-b", 294), ("deadline-between-hops-c", 298)] {
+        let scripts = vec![
+            vec![Srv::ReadRequest, Srv::Sleep(ms), Srv::Send(b"HTTP/1.1 302 Found\r\nLocation: /next\r\nContent-Length: 0\r\n\r\n".to_vec()), Srv::Hold(50)],
+            vec![Srv::ReadRequest, Srv::Hold(3000)],
+        ];
+        stalls.push(Stall { name, scripts, timeout: Some(t), read_timeout: 5000, body: 0, bound: t + margin, must_fail: true, https_via_proxy: false, redirects: true });
+    }
     let reps = if thorough { 4 } else { 1 };
     let stalls = Arc::new(stalls);
     let results: Arc<Mutex<Vec<(usize, u64, String, bool)>>> = Arc::new(Mutex::new(vec![]));
@@ -277,7 +290,7 @@ pub fn generate(seed: u64, tier: &str, sink: &mut Sink) {
                 let url = if st.https_via_proxy { "https://origin.test/".to_string() } else { format!("http://127.0.0.1:{}/", port) };
                 let mut rb = attohttpc::post(&url).read_timeout(Duration::from_millis(st.read_timeout)).connect_timeout(Duration::from_millis(1000)).follow_redirects(st.redirects).max_redirections(10);
                 if let Some(t) = st.timeout {
-                    rb = rb.timeout(Duration::from_millis(t));
+                    rb = rb.timeout(if t == 0 { Duration::from_micros(1) } else { Duration::from_millis(t) });
                 }
                 if st.https_via_proxy {
                     rb = rb.proxy_settings(attohttpc::ProxySettings::builder().https_proxy(url::Url::parse(&format!("http://127.0.0.1:{}", port)).ok()).build());
